@@ -219,3 +219,48 @@ func Harness_C07_Context() {
 	}
 	verifCover("end")
 }
+
+// long histories: many unrelated type groups with forward references and many
+// unrelated functions with matches / inferred generics before (or after) the
+// target; per-definition counters and allocators must not accumulate
+func Harness_C07_LongHistory() {
+	tpl := c07Templates[2]
+	k := envInt("VERIF_HISTORY", 45)
+	base := "package main\n\n"
+	for _, d := range tpl.deps {
+		base += d + "\n"
+	}
+	base += tpl.target
+	bg, bcode := c07Run([]string{"b.fo"}, []string{base})
+	verifAssert(bcode == 0, "the minimal package is accepted: "+verifStdout())
+	hist := ""
+	for i := 0; i < k; i++ {
+		n := itoaV(i)
+		hist += "type Ha" + n + " =\n  | Hx" + n + " of Hb" + n + "\n  | Hy" + n + " of Hc" + n + "\nand Hb" + n + " = {Hf" + n + ": Hc" + n + "}\nand Hc" + n + " = {Hg" + n + ": int}\n\n"
+		hist += "let hfun" + n + " (v:Ha" + n + ") a b =\n  match v with\n  | Hx" + n + " p -> (a, b)\n  | Hy" + n + " q -> (a, b)\n\n"
+	}
+	where := verifChoice("where", 3) // history before the dependencies, between them and the target, or in an earlier file
+	var files, contents []string
+	deps := ""
+	for _, d := range tpl.deps {
+		deps += d + "\n"
+	}
+	tfile := 0
+	switch where {
+	case 0:
+		files, contents = []string{"v0.fo"}, []string{"package main\n\n" + hist + deps + tpl.target}
+	case 1:
+		files, contents = []string{"v0.fo"}, []string{"package main\n\n" + deps + hist + tpl.target}
+	case 2:
+		files, contents = []string{"v0.fo", "v1.fo"}, []string{"package main\n\n" + hist, "package main\n\n" + deps + tpl.target}
+		tfile = 1
+	}
+	vg, vcode := c07Run(files, contents)
+	verifAssert(vcode == 0, "the package with a long unrelated history is accepted: "+verifStdout())
+	for _, m := range tpl.marks {
+		want, _ := c07Extract(bg[0], m)
+		got, ok := c07Extract(vg[tfile], m)
+		verifAssert(ok && got == want, "the target's Go text does not depend on how much was processed before it")
+	}
+	verifCover("end")
+}
